@@ -66,6 +66,62 @@ PROPS = {
         "assumptions": ["BLAKE3 itself is compared against an independent implementation, not proved",
                         "collision resistance is never assumed; sensitivity is monitored on the implementation by single edits"],
     },
+    "C07": {
+        "modules": ["XetProps.C07Final"],
+        "theorems": [
+            "Xet.Xorb.C07_le3_roundtrip", "Xet.Xorb.C07_le32_roundtrip", "Xet.Xorb.C07_hash_bytes_roundtrip",
+            "Xet.Xorb.C07_scheme_code_roundtrip", "Xet.Xorb.C07_max_chunk_fits",
+            "Xet.Xorb.C07_const_chunk_version", "Xet.Xorb.C07_const_ident_main", "Xet.Xorb.C07_const_ident_hashes",
+            "Xet.Xorb.C07_const_ident_boundaries", "Xet.Xorb.C07_const_format_version", "Xet.Xorb.C07_const_format_version_ne_v0",
+            "Xet.Xorb.C07_const_hashes_version", "Xet.Xorb.C07_const_boundaries_version",
+            "Xet.Xorb.C07_chunk_header_roundtrip", "Xet.Xorb.C07_chunk_roundtrip", "Xet.Xorb.C07_chunk_size",
+            "Xet.Xorb.C07_decoders_agree", "Xet.Xorb.C07_footer_roundtrip", "Xet.Xorb.C07_footer_length",
+            "Xet.Xorb.C07_footer_body_roundtrip", "Xet.Xorb.C07_object_roundtrip", "Xet.Xorb.C07_serialized_footer_wf",
+            "Xet.Xorb.C07_chunk_roundtrip_final", "Xet.Xorb.C07_decoders_agree_final", "Xet.Xorb.C07_object_roundtrip_final",
+            "Xet.Bg4.C07_bg4", "Xet.Bg4.C07_bg4_sizes", "Xet.Bg4.C07_bg4_inverse",
+        ],
+        "suites": ["bg4", "xorb"],
+        "level_text": "Theorems for every LZ4 codec pair that round-trips, every scheme per chunk (None/LZ4/BG4+LZ4, automatic choice as "
+                      "oracle) including the incompressible fallback, all chunk lists bounded only by the u24/u32 field widths: chunk header, "
+                      "single chunk (sync and async decoder), chunk sequences (sync = async = stream decoder = chunks + prefix-sum offsets), "
+                      "footer V1, and the whole object: deserialize(serialize) returns the same CasObject, get_all_bytes and "
+                      "get_bytes_by_chunk_range for EVERY range i<j<=n return exactly the chunks, uncompressed lengths are the sums; BG4 "
+                      "regroup(split d) = d for every byte list (every residue mod 4). Tied to the Rust by byte-for-byte comparison of "
+                      "serialized objects (the model re-serializes from the chunk data; LZ4 encoder output is an oracle verified by an "
+                      "independent Lean LZ4 decoder), every range read, and the three decoders.",
+        "design_ref": "DESIGN.md section 4, C07",
+        "technique": "Lean 4 proof over an abstract LZ4 codec + byte-exact differential correspondence",
+        "rule": "xorb: chunk lists of 1..200 [1500 thorough] chunks, lengths 1..131072 incl. every residue mod 4, contents random/zeros/"
+                "text/f32/u16-pattern/mixed, scheme None/LZ4/BG4+LZ4/auto; all chunk ranges of small objects, random + invalid ranges of "
+                "large ones; bg4: every length 0..70 and boundary lengths; distinct by hash of the object; non-trivial = at least two chunks",
+        "assumptions": ["LZ4 frame codec round trip (Codec.RoundTrip): lz4_flex is not proved; the driver checks the Rust encoder's output "
+                        "with an independent Lean decoder", "total uncompressed content < 2^32 and serialized size < 2^32 (u32 fields)",
+                        "scheme choice (BG4Predictor heuristic, floats) is an oracle: any choice round-trips"],
+    },
+    "C09": {
+        "modules": ["XetProps.C09Search"],
+        "theorems": [
+            "Xet.InterpSearch.C09_search_constants_ok", "Xet.InterpSearch.C09_search_bounds_production",
+            "Xet.InterpSearch.C09_search_checked_ops", "Xet.InterpSearch.C09_search_safe", "Xet.InterpSearch.C09_search_arrangement",
+            "Xet.InterpSearch.C09_search", "Xet.InterpSearch.C09_search_sound", "Xet.InterpSearch.C09_search_list",
+            "Xet.InterpSearch.C09_search_production",
+        ],
+        "suites": ["shard", "interp_search"],
+        "level_text": "Interpolation search (search_on_sorted_u64s): theorem for every sorted table, every probe function (so float rounding is "
+                      "irrelevant), key and capacity: the result is a permutation of all values stored under the key when fewer than the "
+                      "capacity match, else exactly capacity of them; every read index lies in the table, no u64 under/overflow, termination. "
+                      "Shard file format: the byte-exact Lean model of serialize_from and of all readers is tied to the Rust by differential "
+                      "runs (serialized bytes, every file lookup incl. absent and prefix-colliding hashes, scans, totals, size accounting); "
+                      "the round-trip theorems over the format model are being added (see evidence obligations).",
+        "design_ref": "DESIGN.md section 4, C09",
+        "technique": "Lean 4 proof (loop invariant, all probe oracles) + byte-exact differential correspondence of the shard format",
+        "rule": "shard: contents 0..250 xorbs / 0..400 files, key distributions uniform/clustered/extremes/shared truncated prefix (1..9 equal "
+                "prefixes), duplicate chunk hashes, re-added keys, all four flag combinations, empty records; every stored file hash + adjacent "
+                "absent hashes looked up; interp_search: sorted tables 0..4000 [40000] records in 8 key distributions x present/absent/"
+                "neighbour keys x capacity 1..10 with full seek-trace comparison; distinct by content hash; non-trivial = >=2 records / loop ran",
+        "assumptions": ["the f64 expression of compute_probe_location is an arbitrary function in the theorems",
+                        "sort_unstable_by_key order among equal truncated chunk hashes is canonicalised before comparison"],
+    },
 }
 
 HOOK_COMMITS = []
